@@ -398,6 +398,12 @@ impl<'a> Gen<'a> {
         } else {
             let scheme = *self.rng.pick(&["http://", "HTTP://", "Http://", "hTTp://"]);
             let s = format!("{}{}", scheme, gen::freeform(&mut self.rng));
+            // half of the time through the public enum variant itself (the
+            // scheme of an http URI is case-insensitive, RFC 3986), so that
+            // the value does not depend on what the string parser admits
+            if self.rng.bool() {
+                return (ServiceUri::Http(s.clone()), s);
+            }
             match ServiceUri::from_str(&s) {
                 Ok(u) => (u, s),
                 Err(_) => {
@@ -1159,6 +1165,28 @@ pub fn run(ctx: &mut Ctx) {
     let mut mrng = ctx.rng("mutants");
     let mut wf = WfBatch::new(!ctx.is_miri());
     let mut pool = Reservoir { docs: Vec::new() };
+
+    // one very large message per run (native stage, first shard): a publication
+    // delta carrying a 9 MiB object (about 12 MB of XML) and a list reply with
+    // 60000 elements — "large lists" and large contents are in the statement
+    if ctx.stage == Stage::Native && ctx.shard == 0 {
+        let mut brng = ctx.rng("big-message");
+        let uri = uri::Rsync::from_str("rsync://example.com/repo/ca/big.roa").expect("uri");
+        let mut delta = publ::PublishDelta::empty();
+        delta.add_publish(publ::Publish::new(Some("big object".into()), uri, publ::Base64::from_content(&brng.bytes(9 << 20))));
+        let big = Case::new("publication.delta", AnyMsg::Publ(publ::Message::delta(delta)));
+        ctx.sig("publication.delta|one 9 MiB object");
+        let _ = check_case(ctx, &big, &mut wf);
+        let hash = rpki::rrdp::Hash::from([7u8; 32]);
+        let mut reply = publ::ListReply::empty();
+        for k in 0..60_000u32 {
+            let u = uri::Rsync::from_str(&format!("rsync://example.com/repo/ca/object-{:06}.roa", k)).expect("uri");
+            reply.add_element(publ::ListElement::new(u, hash));
+        }
+        let big = Case::new("publication.list_reply", AnyMsg::Publ(publ::Message::list_reply(reply)));
+        ctx.sig("publication.list_reply|60000 elements");
+        let _ = check_case(ctx, &big, &mut wf);
+    }
 
     let trace = std::env::var_os("VERIF_C11_TRACE").is_some();
     for i in 0..n_cases {
